@@ -19,7 +19,7 @@ HS_BASE = 1000000            # session numbers of the handshake stage
 
 
 def _dev_cfg(dev):
-    return ('SPECIFICATION Spec\nCONSTANTS\n  Dev = "%s"\n  MsgLists <- McMsgLists\n  FragLens <- McFragLens\n'
+    return ('SPECIFICATION Spec\nCONSTANTS\n  Dev = "%s"\n  MsgLists <- McDevMsgLists\n  FragLens <- McFragLens\n'
             '  CtlLens = {0, 125}\n  MaxCtl = 1\n  MaxFrags = 3\nINVARIANTS NoReject\nCHECK_DEADLOCK FALSE\n' % dev)
 
 
